@@ -135,6 +135,13 @@ var partAllowed = map[string]bool{"content-type": true, "content-transfer-encodi
 // oracleMessage checks C01 (leaves, nesting, content) and C02 (header sections) for one rendering.
 func oracleMessage(c *Ctx, spc *MsgSpec, out []byte, checkC01, checkC02 bool) {
 	c.rep.OracleChecked++
+	if userBoundaryInContent(spc) {
+		// the caller chose the boundary AND supplied content with a line that starts with its
+		// delimiter, in an encoding that passes such a line through (quoted-printable, 8bit, 7bit): RFC 2046
+		// makes the uniqueness of a boundary the duty of whoever chooses it. Outside the property.
+		c.rep.Branches["oracle-skip:user-boundary-occurs-in-content"]++
+		return
+	}
 	ent, err := parseEntity(out, 0)
 	if err != nil {
 		cls := "c01-unparseable"
@@ -376,6 +383,48 @@ func parsedNames(v string) ([]string, []string, error) {
 func hasBareCR(b []byte) bool {
 	for i, c := range b {
 		if c == '\r' && (i+1 >= len(b) || b[i+1] != '\n') {
+			return true
+		}
+	}
+	return false
+}
+
+// userBoundaryInContent: WithBoundary was used and some literally transferred content has a line that
+// starts with "--" + that boundary
+func userBoundaryInContent(spc *MsgSpec) bool {
+	if spc.Boundary == "" {
+		return false
+	}
+	delim := []byte("--" + spc.Boundary)
+	has := func(content []byte, enc string) bool {
+		if strings.EqualFold(enc, "base64") {
+			return false
+		}
+		if bytes.HasPrefix(content, delim) {
+			return true
+		}
+		for _, sep := range []string{"\n", "\r"} {
+			if bytes.Contains(content, append([]byte(sep), delim...)) {
+				return true
+			}
+		}
+		return false
+	}
+	for _, p := range spc.Parts {
+		enc := spc.Encoding
+		if p.Enc != nil {
+			enc = *p.Enc
+		}
+		if has(p.Content, enc) {
+			return true
+		}
+	}
+	for _, f := range spc.Files {
+		enc := f.Enc
+		if enc == "" || enc == "quoted-printable" {
+			enc = "base64"
+		}
+		if has(f.Content, enc) {
 			return true
 		}
 	}
